@@ -23,6 +23,31 @@ from .model import names_in, unparse
 Fact = tuple[bool, str]
 
 
+# Calls whose *having answered true* matters later even if the variables they were asked about are rebound (gate predicates of
+# transformer hooks: "this node passed the line filter").  A positive fact on such a call also leaves the event `EV:GATE:<name>`,
+# which -- like every event -- survives assignments.  Filled by sa/hooks.py.
+STICKY_CALLS: set[str] = set()
+_STICKY_CACHE: dict = {}
+
+
+def _sticky_event(pol: bool, txt: str) -> Optional[str]:
+    if not pol or txt.startswith(("EV:", "MATCH:", "ITER:")):
+        return None
+    hit = _STICKY_CACHE.get(txt, 0)
+    if hit != 0:
+        return hit
+    ev = None
+    if any(nm in txt for nm in STICKY_CALLS):
+        try:
+            e = ast.parse(txt, mode="eval").body
+            if isinstance(e, ast.Call) and isinstance(e.func, ast.Attribute) and e.func.attr in STICKY_CALLS:
+                ev = f"EV:GATE:{e.func.attr}"
+        except SyntaxError:
+            ev = None
+    _STICKY_CACHE[txt] = ev
+    return ev
+
+
 MAX_PARTS = 16  # trace partitioning: a state is a small set of alternatives (must, may); beyond this they are merged
 
 
@@ -70,6 +95,8 @@ class State:
     def add(self, facts) -> Optional["State"]:
         """Add facts; alternatives they contradict are dropped; None if none is left (branch infeasible)."""
         facts = _closure(facts)
+        if STICKY_CALLS:
+            facts = facts + [(True, ev) for ev in (_sticky_event(pol, txt) for pol, txt in facts) if ev]
         out = set()
         for must, may in self.parts:
             m = set(must)
